@@ -31,7 +31,7 @@ use sozu_command_lib::{
     channel::Channel,
     config::{ConfigBuilder, FileConfig, ListenerBuilder},
     proto::command::{
-        request::RequestType, ActivateListener, AddBackend, Cluster, ListenerType, LoadBalancingParams, PathRule,
+        request::RequestType, ActivateListener, AddBackend, Cluster, Header, HeaderPosition, ListenerType, LoadBalancingParams, PathRule,
         Request, RequestHttpFrontend, RulePosition, ServerConfig, SocketAddress, WorkerRequest, WorkerResponse,
     },
     scm_socket::{Listeners, ScmSocket},
@@ -91,7 +91,7 @@ fn start_worker() -> Worker {
 }
 
 fn free_addr() -> SocketAddr {
-    TcpListener::bind("127.0.0.1:0").unwrap().local_addr().unwrap()
+    SocketAddr::from(([127, 0, 0, 1], verif_harness::claim_port()))
 }
 
 
@@ -136,6 +136,35 @@ fn main() {
         sticky_id: None,
         backup: None,
     }));
+    // cluster "r" (hostname retry.x): a frontend with a request-header rule (append X-Op, rewrite nothing) and TWO
+    // backends, the first of which refuses connections: a request routed to it is retried on the live one
+    let dead = {
+        let l = TcpListener::bind("127.0.0.1:0").unwrap();
+        l.local_addr().unwrap()
+    };
+    w.send(RequestType::AddCluster(Cluster { cluster_id: "r".into(), ..Default::default() }));
+    w.send(RequestType::AddHttpFrontend(RequestHttpFrontend {
+        cluster_id: Some("r".into()),
+        address: fa.clone(),
+        hostname: "retry.x".into(),
+        path: PathRule::prefix("/".to_string()),
+        position: RulePosition::Tree.into(),
+        headers: vec![
+            Header { position: HeaderPosition::Request.into(), key: "X-Op".into(), val: "1".into() },
+            Header { position: HeaderPosition::Request.into(), key: "X-Drop".into(), val: "".into() },
+        ],
+        ..Default::default()
+    }));
+    for (id, addr) in [("r-dead", dead), ("r-live", back)] {
+        w.send(RequestType::AddBackend(AddBackend {
+            cluster_id: "r".into(),
+            backend_id: id.into(),
+            address: addr.into(),
+            load_balancing_parameters: Some(LoadBalancingParams::default()),
+            sticky_id: None,
+            backup: None,
+        }));
+    }
     w.drain();
 
     let mut outw: Box<dyn Write> = match std::env::var_os("VERIF_OUT") {
@@ -160,6 +189,27 @@ fn main() {
                     let r = take_case(&rec);
                     out.obs(&[ts("seen"), tn(r.requests.len()), ts("answers"), tn(answers)]);
                     judge(&r, front, &statuses, &mut out);
+                    judge_boundaries(&r, &raw, &mut out);
+                }
+                // a scripted client: `x<bytes>` = send, <n> = wait n ms, `r` = wait for one complete answer
+                "script" => {
+                    let steps: Vec<Step> = op
+                        .args
+                        .iter()
+                        .map(|t| match t {
+                            Tok::B(b) => Step::Send(b.clone()),
+                            Tok::N(n) => Step::Wait(*n as u64),
+                            _ => Step::ReadOne,
+                        })
+                        .collect();
+                    let raw: Vec<u8> = steps.iter().flat_map(|s| if let Step::Send(b) = s { b.clone() } else { vec![] }).collect();
+                    new_case(&rec);
+                    let (answers, statuses) = run_script(front, &steps);
+                    std::thread::sleep(Duration::from_millis(30));
+                    let r = take_case(&rec);
+                    out.obs(&[ts("seen"), tn(r.requests.len()), ts("answers"), tn(answers), ts("early"), tn(r.early)]);
+                    judge(&r, front, &statuses, &mut out);
+                    judge_boundaries(&r, &raw, &mut out);
                 }
                 _ => out.obs(&[ts("badop")]),
             }
@@ -174,25 +224,73 @@ fn main() {
     std::process::exit(0);
 }
 
+enum Step {
+    Send(Vec<u8>),
+    Wait(u64),
+    ReadOne,
+}
+
 /// Sends `raw` at the given cuts; reads answers until the connection is quiet or closed.
 /// -> (number of status lines received, their codes)
 fn drive_client(front: SocketAddr, raw: &[u8], cuts: &[usize]) -> (usize, Vec<u16>) {
-    let Ok(mut c) = TcpStream::connect(front) else { return (0, vec![]) };
-    let _ = c.set_nodelay(true);
     let mut cs: Vec<usize> = cuts.iter().copied().filter(|x| *x > 0 && *x < raw.len()).collect();
     cs.sort();
     cs.dedup();
     cs.push(raw.len());
+    let mut steps = vec![];
     let mut pos = 0;
     for x in cs {
-        if c.write_all(&raw[pos..x]).is_err() {
+        steps.push(Step::Send(raw[pos..x].to_vec()));
+        steps.push(Step::Wait(3));
+        pos = x;
+    }
+    run_script(front, &steps)
+}
+
+/// complete answers (status line + Content-Length delimited body) at the start of `acc`
+fn complete_answers(acc: &[u8]) -> usize {
+    let (mut n, mut s) = (0, acc);
+    while let Some(e) = s.windows(4).position(|w| w == b"\r\n\r\n") {
+        let head = String::from_utf8_lossy(&s[..e]).to_ascii_lowercase();
+        let cl = head.lines().find_map(|l| l.strip_prefix("content-length:").and_then(|v| v.trim().parse::<usize>().ok())).unwrap_or(0);
+        if s.len() < e + 4 + cl {
             break;
         }
-        pos = x;
-        std::thread::sleep(Duration::from_millis(3));
+        n += 1;
+        s = &s[e + 4 + cl..];
     }
+    n
+}
+
+fn run_script(front: SocketAddr, steps: &[Step]) -> (usize, Vec<u16>) {
+    let Ok(mut c) = TcpStream::connect(front) else { return (0, vec![]) };
+    let _ = c.set_nodelay(true);
     let mut acc: Vec<u8> = vec![];
     let mut buf = [0u8; 8192];
+    let mut wanted = 0;
+    'steps: for st in steps {
+        match st {
+            Step::Send(b) => {
+                if c.write_all(b).is_err() {
+                    break;
+                }
+            }
+            Step::Wait(ms) => std::thread::sleep(Duration::from_millis(*ms)),
+            Step::ReadOne => {
+                wanted += 1;
+                let _ = c.set_read_timeout(Some(Duration::from_millis(100)));
+                let t0 = Instant::now();
+                while complete_answers(&acc) < wanted && t0.elapsed() < Duration::from_millis(2500) {
+                    match c.read(&mut buf) {
+                        Ok(0) => break 'steps,
+                        Ok(n) => acc.extend_from_slice(&buf[..n]),
+                        Err(e) if matches!(e.kind(), std::io::ErrorKind::WouldBlock | std::io::ErrorKind::TimedOut) => {}
+                        Err(_) => break 'steps,
+                    }
+                }
+            }
+        }
+    }
     let _ = c.set_read_timeout(Some(Duration::from_millis(250)));
     let t0 = Instant::now();
     while t0.elapsed() < Duration::from_secs(4) {
